@@ -726,6 +726,11 @@ def _op_sig_inplace(plan, op, hist, res):
     if k not in _BUFFERS:
         _BUFFERS[k] = build_signal(d['spec'], d['band'])
     buf = _BUFFERS[k]
+    if not buf.flags.writeable:
+        # only an interrupted fit can leave the caller's buffer read-only; the caller cannot rewrite it
+        hist.append(('sig_inplace', 'read-only'))
+        res.stats['sig_inplace_skipped_buffer_left_read_only'] += 1
+        return
     if op['how'] == 'scale':
         buf *= 3.0
     elif op['how'] == 'negate':
